@@ -505,18 +505,73 @@ func loadGolden(vd string) (*goldenTable, error) {
 
 // stripBraces makes optional-branch nesting transparent: whether a primitive is
 // emitted inside an if/else nest is a property of control flow, not of the layout.
-func stripBraces(s string) string {
-	s = strings.NewReplacer("{", "", "}", "", "|", "").Replace(s)
-	return strings.Join(strings.Fields(s), " ")
+// normBraces keeps optional emissions ({…}: written only on some paths)
+// visible but makes their nesting immaterial: {{a}} is {a}, {} is nothing,
+// and the alternative separator is dropped.
+func normBraces(s string) string {
+	s = strings.NewReplacer("{", " { ", "}", " } ", "|", " ").Replace(s)
+	toks := strings.Fields(s)
+	for changed := true; changed; {
+		changed = false
+		var out []string
+		for i := 0; i < len(toks); i++ {
+			switch {
+			case toks[i] == "{" && i+1 < len(toks) && toks[i+1] == "}":
+				i++
+				changed = true
+			case toks[i] == "{" && i+1 < len(toks) && toks[i+1] == "{":
+				// find the matching braces; collapse when the inner pair spans the whole outer pair
+				depth, j := 0, i
+				for ; j < len(toks); j++ {
+					if toks[j] == "{" {
+						depth++
+					} else if toks[j] == "}" {
+						depth--
+						if depth == 0 {
+							break
+						}
+					}
+				}
+				d2, k := 0, i+1
+				for ; k < len(toks); k++ {
+					if toks[k] == "{" {
+						d2++
+					} else if toks[k] == "}" {
+						d2--
+						if d2 == 0 {
+							break
+						}
+					}
+				}
+				if j < len(toks) && k == j-1 {
+					out = append(out, toks[i+1:j]...)
+					i = j
+					changed = true
+				} else {
+					out = append(out, toks[i])
+				}
+			default:
+				out = append(out, toks[i])
+			}
+		}
+		toks = out
+	}
+	return strings.Join(toks, " ")
 }
 
 // sameSignature compares two signature strings: primitive kinds, order and
 // loop structure must be equal; a carried field is compared only when both
 // sides name one (whether a decoded value lands in a local first or directly
 // in a struct field is not part of the layout).
-func sameSignature(a, b string) bool {
+func sameSignature(a, b string, keepOptional bool) bool {
 	tok := func(s string) []string {
-		s = stripBraces(s)
+		if keepOptional {
+			// writers: whether a primitive is emitted on every path is part of the format
+			s = normBraces(s)
+		} else {
+			// readers: which reads are skipped for an absent section is error/empty handling, not layout
+			s = strings.NewReplacer("{", "", "}", "", "|", "").Replace(s)
+		}
 		s = strings.ReplaceAll(s, "[]", "<elem>") // "[]" inside a carried name is not loop structure
 		s = strings.NewReplacer("[", " [ ", "]", " ] ").Replace(s)
 		return strings.Fields(s)
@@ -637,7 +692,7 @@ func init() {
 				switch {
 				case got == "MISSING" || got == "" && want != "":
 					r.undecided("sig/"+k, fn, pos, "function "+fn+" no longer exists or emits nothing: the format extraction cannot locate this part of the format (renamed/refactored?) — golden: "+want)
-				case !sameSignature(got, want):
+				case !sameSignature(got, want, strings.HasPrefix(k, "W ")):
 					r.bad("sig/"+k, fn, pos, "wire signature differs from format v2: now ["+got+"], reference ["+want+"]")
 				default:
 					r.ok("sig/"+k, fn, pos, "["+got+"]")
